@@ -28,7 +28,8 @@ PROPERTIES = {
         assumptions=["acceptance/refusal of concrete values by the emitted annotations is pydantic's (assumed contract)"],
     ),
     "C05": dict(
-        modules=["contracts.c05_result_fields"],
+        modules=["contracts.c05_result_fields", "contracts.c01_results"],
+        bounded=[_bounded.lazy("contracts.e2e_results", "bounded_results")],
         explanation="result field type translator against the image spec by structural induction (non-abstract positions), "
                     "directive handling, typename literal",
         assumptions=["rejection of corrupted payloads by the emitted annotations is pydantic's (assumed contract)"],
@@ -117,5 +118,11 @@ PROPERTIES = {
         bounded=[_bounded.lazy("contracts.e2e_documents", "bounded_documents")],
         explanation="method-body templates (the bound query text is what is sent, under every renaming of the method locals), operation validation rule set; whole documents by an end-to-end bounded stand-in",
         assumptions=["embedding of the text in Python source (splitlines, ast.unparse, regex rewrite, isort, black) is outside the solvers' fragment: bounded stand-in only"],
+    ),
+    "C01": dict(
+        modules=["contracts.c01_results", "contracts.c05_result_fields"],
+        bounded=[_bounded.lazy("contracts.e2e_results", "bounded_results")],
+        explanation="union / non-abstract translators and field implementation under contract; acceptance, typed instances and round trip by the reference-executor stand-in",
+        assumptions=["pydantic validates the emitted annotation forms as their names say (assumed; exercised by the stand-in)"],
     ),
 }
